@@ -1,10 +1,13 @@
 """C07: cancel() stops a timer for good and never disturbs any other timer.
 Shares the TimerModel, the model runner and the C++ driver with C06 (props/C06.py: run_common) with a
 generator mix biased to cancels / address reuse and the C07 clauses of the oracle, plus the add-vs-fire race
-(F-7): harness/C07_race.cc forces, on the REAL code under ASan, the schedule of theorem
+(F-7, fixed in /repo by a82dacb): harness/C07_race.cc forces, on the REAL code under ASan, the schedule of theorem
 C07_id_after_handoff_refuted (foreign thread stalled inside the eventfd wake-up write while the loop thread
 runs the functor and the expiry), and the generated fact lib/gen_C07.py (clang AST: is timer->sequence()
-read after the runInLoop hand-off?) selects which theorem describes the current tree."""
+read after the runInLoop hand-off?) selects which theorem describes the current tree.  The old witness
+corpus/C07/race_addtimer_uaf.case is run on every check and must complete cleanly now; a regression is
+reported as VIOLATION again (the `fixed:` line in KNOWN_FINDINGS.txt suppresses nothing).
+C07-b (cancel-queued-add) is matched by its oracle clause = the signature key of its `known:` line."""
 import os, re, glob
 import vlib
 from props import C06 as base
@@ -47,10 +50,14 @@ def race_part(chk, pr, only=None):
             cases.append((None, ["case g%d race" % i, "R loop %d" % d, "R benign %d" % d, "R forced %d" % d, "R forced 1000000 0", "end"]))
     env = {"ASAN_OPTIONS": "detect_leaks=0:abort_on_error=0", "UBSAN_OPTIONS": "print_stacktrace=1"}
     uaf_seen, other_bad, clean_forced = None, [], 0
+    witness_runs, witness_clean = 0, 0
     for (src, lines) in cases:
         chk.cov["evaluations"] += 1
         rc, so, se = vlib.sh2([exe], stdin=("\n".join(lines) + "\n").encode(), timeout=120, env=env)
         out = so.split("\n")
+        if src:
+            witness_runs += 1
+            witness_clean += 1 if (rc == 0 and any(OKLINE.match(l) and OKLINE.match(l).group(3) == "1" for l in out)) else 0
         if rc != 0:
             if "heap-use-after-free" in se and "Timer::sequence" in se and "TimerQueue::addTimer" in se:
                 uaf_seen = uaf_seen or (src, lines, se)
@@ -71,6 +78,11 @@ def race_part(chk, pr, only=None):
     agree = (after and uaf_seen is not None) or ((not after) and uaf_seen is None and clean_forced > 0)
     chk.add_obligation("add-vs-fire race: real code under the forced schedule agrees with C07_current_tree for the generated read order "
                        "(after hand-off => use-after-free reproduced; before => every forced run clean)", agree)
+    if not only:
+        chk.add_obligation("F-7 witness corpus/C07/race_addtimer_uaf.case (forced add-vs-fire schedule, ASan): completes cleanly with a valid id "
+                           "on the current tree (fixed by a82dacb; a regression is reported as VIOLATION)", witness_runs > 0 and witness_clean == witness_runs)
+    chk.cov["race"]["witness_runs"] = witness_runs
+    chk.cov["race"]["witness_clean"] = witness_clean
     chk.trusted("harness/C07_race.cc: real EventLoop, foreign std::thread, --wrap=write stalls the foreign thread inside wakeup() while the "
                 "loop thread runs doPendingFunctors()+TimerQueue::handleRead(); --wrap=gettimeofday; ASan as the failing-input finder",
                 "translator lib/gen_C07.py (clang 14 JSON AST: source order of runInLoop and Timer::sequence() in TimerQueue::addTimer)")
@@ -88,6 +100,9 @@ def race_part(chk, pr, only=None):
     for (src, lines, msg) in other_bad[:1]:
         p = chk.write_replay("race_other.case", "# %s\n" % msg.replace("\n", "\n# ") + "\n".join(lines) + "\n")
         chk.violation(p, "C07 add race: " + msg[:800])
+    if not only and witness_runs == 0:
+        p = chk.write_replay("broken_obligation_witness.txt", "# corpus/C07/race_addtimer_uaf.case was not found / not run\n")
+        chk.violation(p, "C07 add race: the F-7 witness corpus/C07/race_addtimer_uaf.case could not be run", no_input=True)
     if not agree and not other_bad and not (uaf_seen and not after):
         p = chk.write_replay("broken_obligation_race.txt",
                              "# generated fact says sequence() is read %s the hand-off but the forced schedule on the real code %s\n"
